@@ -474,6 +474,7 @@ func TestC13(t *testing.T) {
 		n = 2500
 	}
 	WithChecks(n, func() { RunProps(t, rpC13Msg(MyTypes())) })
+	t.Run("volume", func(t *testing.T) { runVolume(t, "C13") })
 }
 
 func rpC13() []RProp { return []RProp{MkProp("C13", "c13", "random", genC13, oracleC13)} }
